@@ -4,9 +4,9 @@
 # usage: confirm_seeded.sh <worktree> <outdir>
 WT=$1; OUT=$2; mkdir -p $OUT
 cd $WT || exit 2
-git stash -q
+git checkout -- photutils   # never git stash: it is shared by all worktrees
 /venv/bin/python demo.py > $OUT/demo_without.txt 2>&1; echo "exit=$?" >> $OUT/demo_without.txt
-git stash pop -q
+git apply patch.diff
 /venv/bin/python demo.py > $OUT/demo_with.txt 2>&1; echo "exit=$?" >> $OUT/demo_with.txt
 /venv/bin/python -m pytest -ra -q -p no:cacheprovider --timeout=900 --continue-on-collection-errors --junitxml=$OUT/junit.xml > $OUT/pytest.log 2>&1
 python3 /verif/tools/baseline_compare.py $OUT/junit.xml > $OUT/baseline_cmp.txt 2>&1
